@@ -284,12 +284,15 @@ package handlers
 //@   modifies ghost started, ghost status, gvar lastEncoded, ghost encW
 //@   ensures ghost(w).started && (!old(ghost(w).started) ==> ghost(w).status == statusCode)
 
+// (C20: the proxy goroutine writes the backend's error body into an unbuffered pipe; before this function waits for
+// that goroutine it must have consumed the pipe completely, otherwise the two block each other forever)
 //@ func (a *Application) handleStreamingBackendError
-//@   property C05
+//@   property C05 C20
 //@   safety
 //@   requires a != nil && w != nil && pipeReader != nil && streamRecorder != nil && pr != nil && pr.requestLogger != nil && trans != nil
 //@   modifies ghost started, ghost status, ghost(w).hdr[all], gvar lastEncoded, ghost encW, ghost remaining
 //@   ensures ghost(w).started && (!old(ghost(w).started) ==> ghost(w).status == streamRecorder.status)
+//@   ensures ghost(pipeReader).remaining == 0
 
 //@ func (a *Application) transformStreamAndWaitForProxy
 //@   property C05
